@@ -343,6 +343,36 @@ def mode_guarded(facts, b, tm, c, ub):
                                                   flow.term_has(t, lambda q: q[0] == "arg")):
             if c.dominates(nz, ub) and nz != ub or nz == ub:
                 return True
+    # the same decision in any other spelling (`matches!(mode, Partial)`, a `match`, a flag set in two arms): the block is not reached
+    # in a concrete walk of the loop round (or of the function) with the mode parameter's discriminant set to a non-Partial variant
+    adt = facts.adt("decode::lzma::ProcessingMode")
+    margs = [i for i in range(1, b.arg_count + 1) if b.locals[i].name == "mode"]
+    if adt is not None and margs:
+        names = [v["name"].split("::")[-1] for v in adt["variants"]]
+        others = [i for i, n in enumerate(names) if n != "Partial"]
+        if "Partial" in names and others:
+            region, start = None, 0
+            for h, blocks, _ in c.loops():
+                if ub in blocks and (region is None or len(blocks) < len(region)):
+                    region, start = blocks, h
+            if start == ub:
+                return False
+
+            def cv(blk, v=None):
+                # `mode == ProcessingMode::X` through the derived PartialEq
+                tt = tm.of_operand(blk.term.args[0]) if blk.term.args else None
+                if (flow.declared(blk.term) or "").endswith("PartialEq::eq") and len(blk.term.args) == 2 and \
+                        any(pat.has_arg(tm.of_operand(a_), "mode") for a_ in blk.term.args):
+                    vs = [x for a_ in blk.term.args for x in pat.promoted_variants(facts, tm.of_operand(a_))]
+                    if len(vs) == 1 and vs[0][1] in names:
+                        return int(names.index(vs[0][1]) == cv.mode)
+                return None
+            for o_ in others:
+                cv.mode = o_
+                dv = lambda pl, o_=o_: o_ if (pl.local == margs[0] and not [x for x in pl.proj if x[0] != "deref"]) else None
+                if pat.walk_concrete(b, c, start, {ub}, discr_val=dv, call_val=cv, region=region):
+                    return False
+            return True
     return False
 
 
